@@ -38,6 +38,8 @@ class Ctx:
         self.alts = []
         self.tokens = []
         self.notes = {}
+        self.seen = {}        # z3 ast id of a condition already decided on this path -> the side taken
+        self._keep = []       # keeps those asts alive so that ids are not reused
 
     def decide(self, cond):
         if isinstance(cond, bool):
@@ -47,6 +49,17 @@ class Ctx:
             return True
         if z3.is_false(cond):
             return False
+        cid = cond.get_id()
+        if cid in self.seen:
+            return self.seen[cid]
+        if z3.is_not(cond) and cond.arg(0).get_id() in self.seen:
+            return not self.seen[cond.arg(0).get_id()]
+        choice = self._decide_new(cond)
+        self.seen[cid] = choice
+        self._keep.append(cond)
+        return choice
+
+    def _decide_new(self, cond):
         i = len(self.decisions)
         if i < len(self.prefix):
             choice = self.prefix[i]
